@@ -9,8 +9,8 @@
   where no C operation wraps (the check drives `offset + length ≥ 2^63` and `abs(INT64_MIN)`
   separately: those are undefined behaviour in C).
   Bytes → number conversion is a parameter `conv : UInt8 → Int` of the string statistics:
-  `unsignedConv` is the definition (bytes are 0..255); `signedConv` / `sextConv` mirror a C
-  `char` that is signed (what math.c does for its string arguments on x86/gcc).
+  `unsignedConv` is what math.c does since fix 3e6ded9 (`(uint8_t)` casts; bytes are 0..255);
+  `signedConv` / `sextConv` are kept as frozen regression definitions of the former signed `char`.
 -/
 import YaraModel.Gen.Crc32Tab
 namespace YaraModel.HM
@@ -25,7 +25,7 @@ deriving Repr
 
 def Block.size (b : Block) : Nat := b.data.length
 
-/-! ## The range walk shared by hash.c (5 copies) and math.c (3 copies)
+/-! ## The range walk shared by hash.c (5 copies) and math.c (3 copies), as of fix d04bbf9
 
 ```
 foreach_memory_block(iterator, block) {
@@ -34,10 +34,12 @@ foreach_memory_block(iterator, block) {
     offset += data_len;  length -= data_len;   <consume block_data[data_offset .. +data_len)>
     past_first_block = true;
   } else if (past_first_block) return UNDEFINED;
-  if (block->base + block->size >= offset + length) break;
+  if (past_first_block && block->base + block->size >= (uint64_t) offset + (uint64_t) length) break;
 }
 if (!past_first_block) return UNDEFINED;
-``` -/
+```
+The loop is left only after a block has been entered; the sum is computed in uint64 (no wrap for
+non-negative int64 operands, see `breakTest_no_wrap` in Thm/C14.lean), so the model uses `Nat`. -/
 
 /-- `data_len = min(length, block->size - data_offset)` -/
 def Block.dlen (b : Block) (off len : Nat) : Nat := min len (b.size - (off - b.base))
@@ -55,8 +57,23 @@ def walkLoop : List Block → Nat → Nat → Bool → Option (List Bytes)
       if b.base + b.size ≥ (off + b.dlen off len) + (len - b.dlen off len) then some [b.chunk off len]
       else (walkLoop bs (off + b.dlen off len) (len - b.dlen off len) true).map (b.chunk off len :: ·)
     else if past then none
-    else if b.base + b.size ≥ off + len then none
     else walkLoop bs off len false
+
+/-- The break test on the machine types: `block->base + block->size >= (uint64_t) offset + (uint64_t) length`
+    (`base` uint64_t, `size` size_t, `offset`/`length` int64_t reinterpreted as uint64_t). -/
+def breakTestU64 (base size off len : BitVec 64) : Bool := (off + len).ule (base + size)
+
+/-- FROZEN regression definition: the loop before fix d04bbf9 (the break test was evaluated also
+    before any block had been entered; `offset + length` was an int64 addition). -/
+def walkLoopV0 : List Block → Nat → Nat → Bool → Option (List Bytes)
+  | [], _, _, past => if past then some [] else none
+  | b :: bs, off, len, past =>
+    if b.base ≤ off ∧ off < b.base + b.size then
+      if b.base + b.size ≥ (off + b.dlen off len) + (len - b.dlen off len) then some [b.chunk off len]
+      else (walkLoopV0 bs (off + b.dlen off len) (len - b.dlen off len) true).map (b.chunk off len :: ·)
+    else if past then none
+    else if b.base + b.size ≥ off + len then none
+    else walkLoopV0 bs off len false
 
 /-- Argument validation in front of the loop: `block == NULL`, `offset < 0 || length < 0 ||
     offset < block->base` (first block). -/
@@ -241,8 +258,22 @@ def sccFinish (s : Scc) : Rat :=
   else (((s.n : Int) * (s.t1 + s.last * s.first) - s.t2 * s.t2 : Int) : Rat) /
        (((s.n : Int) * s.t3 - s.t2 * s.t2 : Int) : Rat)
 
-/-- data_serial_correlation over the consumed chunks. -/
+/-- One block of data_serial_correlation as of fix 5e43bd9: `if (i == 0 && !past_first_block)
+    sccfirst = sccun` — only the first visited block sets `sccfirst`. `past` is past_first_block
+    on entry. -/
+def sccBlock (s : Scc) (past : Bool) (chunk : Bytes) : Scc :=
+  match chunk with
+  | [] => s
+  | b :: rest =>
+    rest.foldl (sccStep unsignedConv)
+      (sccStep unsignedConv (if past then s else { s with first := unsignedConv b }) b)
+
+/-- data_serial_correlation over the consumed chunks (past_first_block is set after every visited block). -/
 def sccChunks (chunks : List Bytes) : Rat :=
+  sccFinish (chunks.foldl (fun (st : Scc × Bool) ch => (sccBlock st.1 st.2 ch, true)) ({}, false)).1
+
+/-- FROZEN regression definition: before fix 5e43bd9 every visited block overwrote `sccfirst`. -/
+def sccChunksV0 (chunks : List Bytes) : Rat :=
   sccFinish (chunks.foldl (sccChunk unsignedConv) {})
 
 /-- string_serial_correlation (one loop, `s->c_string[0]` closes the cycle). -/
@@ -270,8 +301,27 @@ def mcFinish (cnt inm : Nat) : Option Rat :=
   if cnt = 0 then none
   else some (absRat (((4 : Rat) * ((inm : Rat) / (cnt : Rat)) - piRat) / piRat))
 
-/-- data_monte_carlo_pi over the consumed chunks (counters carried across blocks). -/
+/-- State of data_monte_carlo_pi as of fix 5e43bd9: the byte counter `k` and `monte[]` live
+    across blocks; `pend` = the bytes stored since the last evaluated group (`monte[0 .. k%6)`). -/
+structure Mc where
+  pend : Bytes := []
+  cnt : Nat := 0
+  inm : Nat := 0
+
+/-- `monte[k % 6] = byte; if (k % 6 == 5) { mcount++; … inmont++ }; k++` -/
+def mcStep (s : Mc) (b : UInt8) : Mc :=
+  if (s.pend ++ [b]).length = 6 then
+    { pend := [], cnt := s.cnt + (mcChunk unsignedConv (s.pend ++ [b])).1,
+      inm := s.inm + (mcChunk unsignedConv (s.pend ++ [b])).2 }
+  else { s with pend := s.pend ++ [b] }
+
+/-- data_monte_carlo_pi over the consumed chunks. -/
 def mcChunks (chunks : List Bytes) : Option Rat :=
+  let r := chunks.foldl (fun (s : Mc) ch => ch.foldl mcStep s) {}
+  mcFinish r.cnt r.inm
+
+/-- FROZEN regression definition: before fix 5e43bd9 the grouping restarted in every block. -/
+def mcChunksV0 (chunks : List Bytes) : Option Rat :=
   let r := chunks.foldl (fun (acc : Nat × Nat) ch =>
     let x := mcChunk unsignedConv ch; (acc.1 + x.1, acc.2 + x.2)) (0, 0)
   mcFinish r.1 r.2
@@ -331,8 +381,7 @@ def mathMin (i j : Int) : Int := ofU64 (if toU64 i < toU64 j then toU64 i else t
 
 def mathMax (i j : Int) : Int := ofU64 (if toU64 i > toU64 j then toU64 i else toU64 j)
 
-/-- math.abs = llabs.  `llabs(INT64_MIN)` is undefined behaviour in C and |INT64_MIN| is not an
-    int64: the model (and the specification) give undefined. -/
+/-- math.abs as of fix 3070536: `if (i == INT64_MIN) return undefined; return llabs(i)`. -/
 def mathAbs (i : Int) : Option Int := if i = -two63 then none else some (if i < 0 then -i else i)
 
 def mathToNumber (b : Bool) : Int := if b then 1 else 0
